@@ -37,7 +37,7 @@ TERMINAL = ('SUCCESS', 'ERROR', 'CANCELLED')
 
 def cases(seed, tier):
     rng = random.Random('c12-%s' % seed)
-    n = 160 if tier == 'quick' else 1600
+    n = 400 if tier == 'quick' else 3200
     out = []
     for i in range(n):
         prng = random.Random(rng.getrandbits(64))
